@@ -170,7 +170,7 @@ func vhMeltFlow(mode int, nPolls int) {
 
 const vhC05 = 1 << 8
 
-func VHarnessMeltC02() { vhMeltFlow(vhC02|vhC01, 0) }
-func VHarnessMeltC05() { vhMeltFlow(vhC05, 1) }
+func VHarnessMeltC02()      { vhMeltFlow(vhC02|vhC01, 0) }
+func VHarnessMeltC05()      { vhMeltFlow(vhC05, 1) }
 func VHarnessMeltC05Polls() { vhMeltFlow(vhC05, 2) }
-func VHarnessMeltC06() { vhMeltFlow(vhC06, 0) }
+func VHarnessMeltC06()      { vhMeltFlow(vhC06, 0) }
